@@ -107,7 +107,9 @@ PROPS = {
         runs=[func('arith', 'arith', 1000, 20000, 'arith_mismatches', 'arith_check', fields=[1, 2, 4]),
               chain('adv', 'adversarial', 64, 2400, 'check_C06'),
               chain('periods', 'periods', 24, 800, 'check_C06'),
-              chain('faults', 'faults', 24, 800, 'check_C06')],
+              chain('faults', 'faults', 24, 800, 'check_C06'),
+              # validators that are jailed, take their stake back and are removed from staking while their miss counters run
+              chain('oracle', 'oracle', 32, 1000, 'check_C06')],
         fields=[20, 21],
         inventory=[('panic_sites', 'panic_table')],
         rule=CHAIN_RULE + "; adversarial stream: negative / zero / 2^63 / 2^64 / 2^256-1 amounts, malformed and unregistered denominations, malformed token ids and contract addresses, vote entries without ':' or '/', deprecated and unknown topics, periods near 2^64; every history runs on through maturity, tally and slash window",
